@@ -286,6 +286,11 @@ func VerifyFunc(pr *Prog, eff *Effects, fi *FuncInfo, opts VerifyOpts) (rep *Fun
 				x.emit(pan, nm, "ensures", env.evalBool(e.Expr), fi.Decl.Pos(), "postcondition on panic: "+e.Text)
 			}
 		}
+		for _, a := range spec.Asserts {
+			if !a.Hit && a.inView(x.view) {
+				rep.Err = fmt.Sprintf("spec-error: assert anchor %q of %s matches no statement", a.Anchor, fi.Key)
+			}
+		}
 		for _, ls := range spec.Loops {
 			if !ls.Matched {
 				rep.Err = fmt.Sprintf("spec-error: loop contract %q of %s matches no loop", ls.Key, fi.Key)
